@@ -354,6 +354,23 @@ func (p *player) run() {
 	p.node = p.buildNode()
 	baseline := gomavlibGoroutines()
 	var err error
+	if c.RetryInit && !c.LegacyCtor {
+		busy, lerr := net.Listen("tcp4", "127.0.0.1:0")
+		if lerr != nil {
+			fatal("%v", lerr)
+		}
+		good := p.node.Endpoints
+		p.node.Endpoints = append(append([]gomavlib.EndpointConf{}, good...), gomavlib.EndpointTCPServer{Address: busy.Addr().String()})
+		err0 := p.node.Initialize()
+		p.rec.Put(M{"e": "InitFirst", "ok": err0 == nil, "err": fmt.Sprint(err0), "t": p.ms()})
+		busy.Close()
+		if err0 == nil {
+			p.node.Close()
+			p.rec.Put(M{"e": "Ambiguous", "what": "the first initialization was meant to fail"})
+		}
+		// fresh transports for the second attempt (the first ones were closed by the failed one), same Node value
+		p.node.Endpoints = p.buildNode().Endpoints
+	}
 	if c.LegacyCtor {
 		b := p.node
 		var n2 *gomavlib.Node
